@@ -171,6 +171,8 @@ impl F51x4Unreduced {
 
     #[inline]
     pub fn negate_lazy(&self) -> F51x4Unreduced {
+        #[cfg(curve25519_dalek_verif)]
+        crate::verif_hooks::monitor_ifma(crate::verif_hooks::SITE_IFMA_NEGATE_LAZY, &self.0);
         let lo = u64x4::splat(36028797018963664u64);
         let hi = u64x4::splat(36028797018963952u64);
         F51x4Unreduced([
@@ -270,6 +272,8 @@ impl F51x4Reduced {
 
     #[inline]
     pub fn square(&self) -> F51x4Unreduced {
+        #[cfg(curve25519_dalek_verif)]
+        crate::verif_hooks::monitor_ifma(crate::verif_hooks::SITE_IFMA_SQUARE, &self.0);
         unsafe {
             let x = &self.0;
 
@@ -437,6 +441,8 @@ impl<'a> Mul<(u32, u32, u32, u32)> for &'a F51x4Reduced {
     type Output = F51x4Unreduced;
     #[inline]
     fn mul(self, scalars: (u32, u32, u32, u32)) -> F51x4Unreduced {
+        #[cfg(curve25519_dalek_verif)]
+        crate::verif_hooks::monitor_ifma(crate::verif_hooks::SITE_IFMA_MUL_CONSTS, &self.0);
         unsafe {
             let x = &self.0;
             let y = u64x4::new(
@@ -489,6 +495,11 @@ impl<'a, 'b> Mul<&'b F51x4Reduced> for &'a F51x4Reduced {
     type Output = F51x4Unreduced;
     #[inline]
     fn mul(self, rhs: &'b F51x4Reduced) -> F51x4Unreduced {
+        #[cfg(curve25519_dalek_verif)]
+        {
+            crate::verif_hooks::monitor_ifma(crate::verif_hooks::SITE_IFMA_MUL_LHS, &self.0);
+            crate::verif_hooks::monitor_ifma(crate::verif_hooks::SITE_IFMA_MUL_RHS, &rhs.0);
+        }
         unsafe {
             // Inputs
             let x = &self.0;
